@@ -4,6 +4,9 @@ import RV.C14.CanonLemmas
 import RV.C14.SearchLemmas
 import RV.C14.RefineLemmas
 import RV.C14.RefineEquiv
+import RV.C14.RefineStable
+import RV.C14.RefineStable2
+import RV.C14.RefineWitness
 /-
   C14 — property statements and theorems.
 
@@ -258,14 +261,55 @@ theorem refine_refines : Statement_refine_refines := by
 
 theorem refineInit_runs : Statement_refineInit_runs := by
   intro H HT g
-  refine ⟨initialColor_wf g, refineLoop_run H HT g _ _ _ (initialColor_wf g) ?_⟩
-  unfold refineFuel
-  rw [sortDesc_length]
-  exact Nat.le_refl _
+  have hf : refineFuel (initialColor g) (sortDesc H HT (initialColor g)) =
+      refineFuel (initialColor g) (initialColor g) := by
+    unfold refineFuel
+    rw [sortDesc_length]
+  exact ⟨initialColor_wf g, refineLoop_run H HT g _ _ _ (initialColor_wf g) (Nat.le_of_eq hf)⟩
 
 /-- non-vacuity: on the directed path 1→2→3 the loop separates all three nodes (and needs more than one iteration) -/
 example : refinePartition [(b 1, p, b 2), (b 2, p, b 3)] = [[3], [1], [2]] := by decide
 example : refinePartition [(b 1, p, b 2), (b 2, p, b 3), (b 3, p, b 1)] = [[1, 2, 3]] := by decide
+
+/-- STABILITY, full strength: under the explicit hypothesis that the colour hash is injective on multisets of items
+    (`MultisetInj H`: H a = H b → a ~ b; `hash_color` is a sum of SHA-256 values), the colouring the loop returns for the
+    call of `canonical_triples` is stable — no colour can be split by any colour of the final partition: for every
+    splitter `W` and every colour `c` of the result, all members of `c` have the same multiset of (direction, predicate)
+    edges into `W`.  Proof (RefineStable2.lean): worklist invariant `WInv` — every colour `X` is in the sequence, or the
+    colouring is stable against `X ∪ Ys` for colours `Ys` that are all in the sequence (at the start everything is in the
+    sequence; a pass keeps the invariant because all children of a colour that was in the sequence are pushed, all
+    children but the first of any other colour are pushed, the pass makes everything stable against the popped `W`, and
+    stability against `A ∪ B` and `B` gives stability against `A`); at `sequence = []` this is stability, and the early
+    exit at a discrete colouring is stable outright. -/
+def Statement_refine_stable : Prop :=
+  ∀ (H : List Item → Nat) (HT : Term → Nat) (g : Graph), MultisetInj H →
+    Stable H HT g (refineLoop H HT g (refineFuel (initialColor g) (initialColor g)) (initialColor g)
+      (sortDesc H HT (initialColor g)))
+
+/-- STABILITY, the local facts (any colouring, any sequence): (i) after every pass of the loop, every colour of the new colouring is stable
+    with respect to the splitter `W` that was popped for this pass (all members have the same multiset of edges into
+    `W`) — under `MultisetInj H`; (ii) a discrete colouring (the early exit of the loop) is stable outright -/
+def Statement_refine_stable_partial : Prop :=
+  (∀ (H : List Item → Nat) (HT : Term → Nat) (g : Graph), MultisetInj H → ∀ (W : Color) (P S : List Color),
+    ∀ c' ∈ (refinePass H HT g W P S).1, StableWrt g (W.hash H HT) W.nodes c') ∧
+  (∀ (H : List Item → Nat) (HT : Term → Nat) (g : Graph) (cs : List Color),
+    cs.all Color.discrete = true → Stable H HT g cs)
+
+theorem refine_stable : Statement_refine_stable :=
+  fun _ HT g hH => refineInit_stable hH HT g
+
+/-- non-vacuity of the hypothesis: a hash that is injective on multisets of items exists (the encoding of the multiset
+    of item codes, RefineWitness.lean) -/
+example : ∃ H : List Item → Nat, MultisetInj H := ⟨witnessHash, multisetInj_witness⟩
+
+theorem refine_stable_partial : Statement_refine_stable_partial :=
+  ⟨fun _ HT g hH W P S => refinePass_stable hH HT g W P S, stable_of_discrete⟩
+
+/-- non-vacuity of (i): in the 3-cycle all nodes see one out- and one in-edge into the cell {1,2,3} -/
+example : StableWrt [(b 1, p, b 2), (b 2, p, b 3), (b 3, p, b 1)] 5 [b 1, b 2, b 3] ⟨[b 1, b 2, b 3], [], none⟩ := by
+  intro n hn m hm
+  simp only [List.mem_cons, List.not_mem_nil, or_false] at hn hm
+  rcases hn with rfl | rfl | rfl <;> rcases hm with rfl | rfl | rfl <;> decide
 
 /-- the whole `_refine` computation is EQUIVARIANT under blank-node renaming, for arbitrary hash functions: for `σ`
     injective on the blank nodes of `g` (no blank predicates), running `_refine` on the renamed graph from the renamed
